@@ -154,6 +154,14 @@ def base_function(name):
     return name.split("__")[0] if name.startswith("<func>") else name
 
 
+# argument names as documented for the built-ins (dagrt/function_registry.py)
+BUILTIN_ARG_NAMES = {
+    "<builtin>len": ["x"], "<builtin>isnan": ["x"], "<builtin>norm_1": ["x"], "<builtin>norm_2": ["x"],
+    "<builtin>norm_inf": ["x"], "<builtin>elementwise_abs": ["x"], "<builtin>dot_product": ["x", "y"],
+    "<builtin>array": ["n"], "<builtin>matmul": ["a", "b", "a_cols", "b_cols"], "<builtin>transpose": ["a", "a_cols"],
+}
+
+
 def ref_call(log):
     def call(name, args, kwargs):
         site = name
@@ -189,7 +197,18 @@ def ref_call(log):
             log.append((name, detail))
             return Fraction(3)
         if kwargs:
-            raise RefError("keyword arguments to builtin")
+            # bind keyword arguments by the documented argument names (dagrt.function_registry)
+            names = BUILTIN_ARG_NAMES.get(name)
+            if names is None:
+                raise RefError("keyword arguments to unknown builtin")
+            bound = list(args)
+            for n_ in names[len(args):]:
+                if n_ not in kwargs:
+                    raise RefError("missing argument %s" % n_)
+                bound.append(kwargs[n_])
+            if len(bound) != len(names) or set(kwargs) - set(names[len(args):]):
+                raise RefError("bad keyword arguments")
+            args = bound
         if name == "<builtin>len":
             return Fraction(len(args[0].v)) if isinstance(args[0], Vec) else Fraction(1)
         if name == "<builtin>norm_1":
